@@ -282,6 +282,26 @@ class Program:
         self._walker = cands[0] if len(cands) == 1 else "<<context::Context as core::ops::drop::Drop>::drop::DropAll as core::ops::drop::Drop>::drop"
         return self._walker
 
+    def arena_drop_walkers(self):
+        """Every function that releases blocks on behalf of the context's destructor: the crate functions that call
+        GcPtr::dealloc, are reachable from `<Context as Drop>::drop` (or are it) and are reachable from nowhere else
+        except through it - a guard type's Drop today, possibly a plain helper function plus a small resume guard."""
+        self.edges()
+        ctx_drop = "<context::Context as core::ops::drop::Drop>::drop"
+        if ctx_drop not in self.seed_n:
+            return [self.arena_drop_walker()]
+        reach = self.reachable_from([ctx_drop])
+        out = set()
+        for e in self.callers_of("gc_ptr::GcPtr::dealloc"):
+            c = self.fn_of_closure(e.caller)
+            if c.startswith("<gc::GcBuilder ") or not (c in reach or c == ctx_drop):
+                continue
+            # not callable from anywhere but the context's destructor (and from itself / its own guards)
+            others = {x.caller for x in self.callers_of(c)} - {c, ctx_drop}
+            if all(o in reach for o in others):
+                out.add(c)
+        return sorted(out) or [self.arena_drop_walker()]
+
     def collector_trace_impl(self):
         """The collector's own `impl Trace` (what user Collect impls call into): the implementor is the context
         itself or a reference to it. Returns {"trace_gc": def, "trace_gc_weak": def, "by_ref": bool} or None."""
